@@ -385,6 +385,23 @@ impl Scenario for C15 {
             recs.extend(rest.iter().cloned());
             emit(recs, ctx, &mut sm, "first-position");
         }
+        // a body taken from the octet arrays the code under test spells out
+        // (as written and reversed), alone or in front of the good records
+        if let Some(a) = crate::dict::pick_array(&mut wl) {
+            let mut variants = vec![a.clone()];
+            let mut rev = a;
+            rev.reverse();
+            variants.push(rev);
+            for v in variants {
+                if let Some(r) = rec_from_bytes(&v) {
+                    let mut recs = vec![r];
+                    if wl.bool() {
+                        recs.extend(rest.iter().cloned());
+                    }
+                    emit(recs, ctx, &mut sm, "dictionary-body");
+                }
+            }
+        }
     }
     fn execute(case: &Case15, obs: &mut Obs) -> Result<(), Failure> {
         exec_c15(case, obs)
@@ -466,6 +483,17 @@ pub enum Case20 {
     },
     /// render one error value
     Render { variant: u8, payload: u16 },
+    /// the single fault sits inside a hidden AVP: its recovered payload is
+    /// shorter than the announced type's minimum; revealing it (right secret
+    /// and random vector) must name that type as incomplete
+    HiddenShort {
+        attr: u16,
+        #[serde(with = "hexser")]
+        payload: Vec<u8>,
+        #[serde(with = "hexser")]
+        secret: Vec<u8>,
+        rv: [u8; 4],
+    },
     /// render several error values one after the other on one thread (a few
     /// distinct payloads, repeated): each text must name its own value
     RenderHistory(Vec<(u8, u16)>),
@@ -506,6 +534,47 @@ fn tokens(s: &str) -> Vec<&str> {
 
 fn exec_c20(case: &Case20, obs: &mut Obs) -> Result<(), Failure> {
     match case {
+        Case20::HiddenShort { attr, payload, secret, rv } => {
+            obs.steps += 1;
+            let conv = match crate::props::hiding::calibrated_conv() {
+                Some(c) => c,
+                None => return Ok(()),
+            };
+            let value = match spec_hide(*attr, payload, secret, rv, &[], &[0u8; 16], conv) {
+                Some(v) => v,
+                None => return Ok(()),
+            };
+            let h = rl2tp::avp::AVP::Hidden(rl2tp::avp::types::Hidden {
+                attribute_type: *attr,
+                value,
+            });
+            let rvv = rl2tp::avp::types::RandomVector::from(*rv);
+            match guard(|| h.reveal(secret, &rvv)) {
+                Ok(Err(e)) => {
+                    if err_kind(&e) == Some(SpecErr::IncompleteAvp(*attr)) {
+                        let txt = guard(|| e.to_string()).unwrap_or_default();
+                        if txt.trim().is_empty() {
+                            return Err(Failure::new("C20", "render-nonempty", "hidden-IncompleteAvp", "empty rendering".into()));
+                        }
+                        Ok(())
+                    } else {
+                        Err(Failure::new(
+                            "C20",
+                            "error-names-the-fault",
+                            "hidden-IncompleteAvp",
+                            format!(
+                                "a hidden AVP of type {} whose recovered payload has {} octet(s) (the type needs more): reveal reports {} instead of IncompleteAvp({})",
+                                attr,
+                                payload.len(),
+                                errs_text(std::slice::from_ref(&e)),
+                                attr
+                            ),
+                        ))
+                    }
+                }
+                _ => Ok(()), // acceptance and totality: C13
+            }
+        }
         Case20::RenderHistory(steps) => {
             obs.count("probe:render-history");
             on_fresh_thread(|| {
@@ -758,6 +827,21 @@ impl Scenario for C20 {
             };
             cases.push(Case20::Render { variant, payload });
         }
+        // a truncated AVP inside a hidden AVP
+        for _ in 0..2 {
+            let cands: Vec<u16> = ALL_ATTRS.iter().copied().filter(|a| min_payload(fmt_of(*a).unwrap()) > 0).collect();
+            let attr = *wl.pick(&cands);
+            let min = min_payload(fmt_of(attr).unwrap());
+            let n = wl.urange(0, min - 1);
+            let sl = wl.urange(1, 20);
+            let rvb = wl.bytes(4);
+            cases.push(Case20::HiddenShort {
+                attr,
+                payload: wl.bytes(n),
+                secret: wl.bytes(sl),
+                rv: [rvb[0], rvb[1], rvb[2], rvb[3]],
+            });
+        }
         // a rendering history over two or three values
         {
             const NUMS: [u16; 10] = [20, 40, 41, 255, 1000, 2000, 65535, 7, 0, 39];
@@ -798,6 +882,7 @@ impl Scenario for C20 {
     fn shrink(case: &Case20) -> Vec<Case20> {
         match case {
             Case20::Render { .. } => Vec::new(),
+            Case20::HiddenShort { .. } => Vec::new(),
             Case20::RenderHistory(steps) => {
                 let mut out = Vec::new();
                 for i in 0..steps.len() {
